@@ -87,19 +87,10 @@ theorem rc_trunc {α : Type} (prog : Prog α) (bits : List Bool) (ps : Probs) (h
   rw [List.append_nil] at hinit
   exact decRun_trunc prog ps e'.bytes d0' a ps' d' hinit hdec k (by rw [hinp]; simpa using hk)
 
-/-- how `decodeRaw` turns the result of the symbol loop into its answer (`len` = length of the input) -/
+/-- how `decodeRaw` turns the result of the symbol loop into its answer (`len` = length of the input): the model's
+    `rawFinish` (tail of `LZMAReader::read_decode`) -/
 def rawResult (preset : Array Nat) (dictBuf : Nat) (size : Option Nat) (len : Nat) (r : LoopRes) (e : Dec) : DecOut :=
-  if e.normalize.over > 0 then .err .eof
-  else match r.stop with
-    | .limit => .ok (r.hist.extract (presetUsedOf preset dictBuf).size r.hist.size)
-        (len - e.normalize.inp.length) r.parse.reverse
-    | .endMarker => (match size with
-        | none => .ok (r.hist.extract (presetUsedOf preset dictBuf).size r.hist.size)
-            (len - e.normalize.inp.length) r.parse.reverse
-        | some _ => .err .other)
-    | .distOverflow => .err .other
-    | .overrun => .err .invalidData
-    | .fuel => .capped
+  rawFinish (presetUsedOf preset dictBuf).size size len r e
 
 /-- `decodeRaw` after a successful `init`, in terms of a named run of the loop program -/
 theorem decodeRaw_run (pr : Params) (dictBuf : Nat) (preset : Array Nat) (size : Option Nat)
@@ -110,30 +101,83 @@ theorem decodeRaw_run (pr : Params) (dictBuf : Nat) (preset : Array Nat) (size :
   rw [Props.C01.decodeRaw_eq pr dictBuf preset size b0 tl cap d0 hb hinit]
   unfold rawProg rawPs0 at hrun
   unfold rawResult
-  cases size <;> simp only at hrun <;> simp only [hrun] <;>
-    (clear hrun; rcases r with ⟨stop, coder, hist, parse, em⟩; cases stop <;> rfl)
+  cases size <;> simp only at hrun ⊢ <;> rw [hrun]
 
+/-- a byte was already missing when the symbol loop stopped: `UnexpectedEof`, whatever the loop stopped for
+    (`stream_error()` is looked at before the result of `decode`) -/
+theorem rawResult_over0 (preset : Array Nat) (dictBuf : Nat) (size : Option Nat) (len : Nat) (r : LoopRes) (e : Dec)
+    (h : e.over > 0) : rawResult preset dictBuf size len r e = .err .eof := by
+  have hn : e.normalize.over > 0 := Nat.lt_of_lt_of_le h (normalize_over_le e)
+  unfold rawResult rawFinish
+  cases hs : r.stop.isRepeatErr
+  · simp only [Bool.false_eq_true, if_false, if_pos hn]
+  · simp only [if_true, if_pos h]
+
+/-- the loop did not stop for a corrupt symbol and the final normalisation misses a byte: `UnexpectedEof`.
+    (For a corrupt symbol - `isRepeatErr`, i.e. "dist overflow" / an end marker - the decoder does not normalise; see
+    `rawResult_repeatErr`.) -/
 theorem rawResult_over (preset : Array Nat) (dictBuf : Nat) (size : Option Nat) (len : Nat) (r : LoopRes) (e : Dec)
+    (hs : r.stop.isRepeatErr = false ∨ (r.stop = .endMarker ∧ size = none))
     (h : e.normalize.over > 0) : rawResult preset dictBuf size len r e = .err .eof := by
-  unfold rawResult; rw [if_pos h]
+  by_cases h0 : e.over > 0
+  · exact rawResult_over0 preset dictBuf size len r e h0
+  · rcases hs with hs | ⟨hs, hsz⟩
+    · unfold rawResult rawFinish
+      simp only [hs, Bool.false_eq_true, if_false, if_pos h]
+    · subst hsz
+      unfold rawResult rawFinish
+      simp only [hs, Stop.isRepeatErr, if_true, if_neg h0, if_pos h]
+
+/-- the deviation that used to be tolerated, as a theorem about the model: a corrupt symbol reached without a missing
+    byte is `Other`, even if the byte the next normalisation would ask for is not there -/
+theorem rawResult_repeatErr (preset : Array Nat) (dictBuf : Nat) (size : Option Nat) (len : Nat) (r : LoopRes) (e : Dec)
+    (hs : r.stop = .distOverflow ∨ (r.stop = .endMarker ∧ size.isSome)) (h : e.over = 0) :
+    rawResult preset dictBuf size len r e = .err .other := by
+  unfold rawResult rawFinish
+  rcases hs with hs | ⟨hs, hsz⟩
+  · simp only [hs, Stop.isRepeatErr, if_true, h, Nat.lt_irrefl, if_false]
+  · obtain ⟨n, rfl⟩ := Option.isSome_iff_exists.mp hsz
+    simp only [hs, Stop.isRepeatErr, if_true, h, Nat.lt_irrefl, if_false]
 
 theorem rawResult_ok {preset : Array Nat} {dictBuf : Nat} {size : Option Nat} {len : Nat} {r : LoopRes} {e : Dec}
     {out : Array Nat} {c : Nat} {parse : List Sym}
     (h : rawResult preset dictBuf size len r e = .ok out c parse) :
-    e.normalize.over = 0 ∧ c = len - e.normalize.inp.length := by
-  unfold rawResult at h
-  by_cases hov : e.normalize.over > 0
-  · rw [if_pos hov] at h; cases h
-  · rw [if_neg hov] at h
-    refine ⟨by omega, ?_⟩
-    split at h
-    · injection h with _ hc _; exact hc.symm
-    · split at h
-      · injection h with _ hc _; exact hc.symm
-      · cases h
-    · cases h
-    · cases h
-    · cases h
+    e.normalize.over = 0 ∧ c = len - e.normalize.inp.length ∧
+      (r.stop = .limit ∨ (r.stop = .endMarker ∧ size = none)) := by
+  unfold rawResult rawFinish at h
+  rcases r with ⟨stop, coder, hist, parse', em⟩
+  cases stop <;> simp only [Stop.isRepeatErr, Bool.false_eq_true, if_false, if_true] at h
+  · -- limit
+    by_cases hov : e.normalize.over > 0
+    · rw [if_pos hov] at h; cases h
+    · rw [if_neg hov] at h
+      injection h with _ hc _
+      exact ⟨by omega, hc.symm, Or.inl rfl⟩
+  · -- endMarker
+    by_cases hov : e.over > 0
+    · rw [if_pos hov] at h; cases h
+    · rw [if_neg hov] at h
+      cases size with
+      | some n => cases h
+      | none =>
+        simp only at h
+        by_cases hov' : e.normalize.over > 0
+        · rw [if_pos hov'] at h; cases h
+        · rw [if_neg hov'] at h
+          injection h with _ hc _
+          exact ⟨by omega, hc.symm, Or.inr ⟨rfl, rfl⟩⟩
+  · -- distOverflow
+    by_cases hov : e.over > 0
+    · rw [if_pos hov] at h; cases h
+    · rw [if_neg hov] at h; cases h
+  · -- overrun
+    by_cases hov : e.normalize.over > 0
+    · rw [if_pos hov] at h; cases h
+    · rw [if_neg hov] at h; cases h
+  · -- fuel
+    by_cases hov : e.normalize.over > 0
+    · rw [if_pos hov] at h; cases h
+    · rw [if_neg hov] at h; cases h
 
 /-- inversion: what an accepted input looks like -/
 theorem decodeRaw_ok_inv {pr : Params} {dictBuf : Nat} {preset : Array Nat} {size : Option Nat}
@@ -142,7 +186,8 @@ theorem decodeRaw_ok_inv {pr : Params} {dictBuf : Nat} {preset : Array Nat} {siz
     ∃ b1 b2 b3 b4 rest d0 r ps e, input = 0 :: b1 :: b2 :: b3 :: b4 :: rest ∧
       Dec.init input = some d0 ∧ d0.inp = rest ∧ d0.over = 0 ∧
       (rawProg pr dictBuf preset size cap).decRun (rawPs0 pr) d0 = (r, ps, e) ∧
-      e.normalize.over = 0 ∧ c = input.length - e.normalize.inp.length := by
+      e.normalize.over = 0 ∧ c = input.length - e.normalize.inp.length ∧
+      (r.stop = .limit ∨ (r.stop = .endMarker ∧ size = none)) := by
   cases input with
   | nil => simp only [decodeRaw] at h; cases h
   | cons b0 tl =>
@@ -180,7 +225,7 @@ theorem decodeRaw_trunc {pr : Params} {dictBuf : Nat} {preset : Array Nat} {size
     {input : List Nat} {cap : Nat} {out : Array Nat} {c : Nat} {parse : List Sym}
     (h : decodeRaw pr dictBuf preset size input cap = .ok out c parse) (k : Nat) (hk : k < c) :
     decodeRaw pr dictBuf preset size (input.take k) cap = .err .eof := by
-  obtain ⟨b1, b2, b3, b4, rest, d0', r', ps', e', rfl, hinit', hd0i, hd0o, hrun', hov', hc⟩ := decodeRaw_ok_inv h
+  obtain ⟨b1, b2, b3, b4, rest, d0', r', ps', e', rfl, hinit', hd0i, hd0o, hrun', hov', hc, hstop'⟩ := decodeRaw_ok_inv h
   by_cases hk5 : k < 5
   · exact decodeRaw_short pr dictBuf preset size cap b1 b2 b3 b4 rest k hk5
   · obtain ⟨j, rfl⟩ : ∃ j, k = j + 5 := ⟨k - 5, by omega⟩
@@ -200,17 +245,24 @@ theorem decodeRaw_trunc {pr : Params} {dictBuf : Nat} {preset : Array Nat} {size
       { range := 0xFFFFFFFF, code := ((b1 * 256 + b2) * 256 + b3) * 256 + b4, inp := rest.take j, over := 0 } = t
     obtain ⟨r, ps, e⟩ := t
     rw [decodeRaw_run pr dictBuf preset size 0 _ cap _ rfl hinit r ps e hrun]
-    have hover : e.normalize.over > 0 := by
-      rcases decRun_extBy _ _ _ _ _ hext r r' ps ps' e e' hrun hrun' with ho | ⟨_, _, he⟩
-      · have := normalize_over_le e; omega
-      · rcases normalize_ext he with ho | hen
+    -- either the short run has read past its end (then `UnexpectedEof` whatever it stopped for), or it misses no
+    -- byte: then it ends like the full run (same stop reason: the declared size / the end marker, where the decoder
+    -- normalises before it looks at the source's error) and the final normalisation reads past the end
+    rcases decRun_extBy _ _ _ _ _ hext r r' ps ps' e e' hrun hrun' with ho | ⟨hr, _, he⟩
+    · exact rawResult_over0 _ _ _ _ _ _ ho
+    · subst hr
+      have hover : e.normalize.over > 0 := by
+        rcases normalize_ext he with ho | hen
         · exact ho
         · exfalso
           have hl := congrArg List.length hen.2.2.2.2
           rw [List.length_append, List.length_drop] at hl
           simp only [List.length_cons] at hc
           omega
-    exact rawResult_over _ _ _ _ _ _ hover
+      refine rawResult_over _ _ _ _ _ _ ?_ hover
+      rcases hstop' with hs | ⟨hs, hsz⟩
+      · left; rw [hs]; rfl
+      · right; exact ⟨hs, hsz⟩
 
 /-- the same, as "not accepted" -/
 theorem decodeRaw_trunc_not_ok {pr : Params} {dictBuf : Nat} {preset : Array Nat} {size : Option Nat}
